@@ -121,11 +121,17 @@ def generate(rng, tier) -> dict:
         # processed with the same transform by a reader that no longer exists
         for _ in range(20):
             nch2 = rng.choice([c for c in (1, 2, 4, 6, 8, 12, 16) if (c * spec["nbits"]) % 8 == 0])
-            if nch2 != spec["nchans"] and not (T.needs_disp_band(name) and nch2 < 2):
-                spec2 = {**{k: v for k, v in spec.items() if k not in ("big",)}, "nchans": nch2, "nsamps": [rng.randint(2, 12)], "pad": [0],
-                         "vseed": rng.randrange(1 << 16)}
+            same_band = T.needs_disp_band(name) and rng.random() < 0.6
+            if same_band:
+                nch2 = spec["nchans"]  # same band, other sampling time (a decimated copy of the observation)
+            if (nch2 != spec["nchans"] or same_band) and not (T.needs_disp_band(name) and nch2 < 2):
+                spec2 = {**{k: v for k, v in spec.items() if k not in ("big",)}, "nchans": nch2, "nsamps": [rng.randint(2, 12) if not same_band else max(2, min(40, sum(spec["nsamps"])))],
+                         "pad": [0], "vseed": rng.randrange(1 << 16)}
+                if same_band:
+                    spec2["tsamp"] = float(spec.get("tsamp", 0.001)) * 2
                 try:
-                    sc["earlier"] = {"files": spec2, "params": T.gen_params(name, rng, spec2, spec2["nsamps"][0]), "gulp": rng.randint(1, 12)}
+                    p2 = dict(params) if same_band else T.gen_params(name, rng, spec2, spec2["nsamps"][0])
+                    sc["earlier"] = {"files": spec2, "params": p2, "gulp": rng.randint(1, 12)}
                 except Rejected:
                     continue
                 break
